@@ -301,7 +301,132 @@ class Runner:
             self.viol(f"{self.where()}/{kind}/{c}/data-differs-from-get", f"multiget data for {h!r} differs from GET body", {"multiget": (data or "")[:600], "get": want[:600]})
 
 
+def run_concurrent(args):
+    """multiget (and GET) while another client overwrites the same members, real CLI
+    server, delays injected at the server's reads of index / refs.  Every body carries a
+    unique token and every successful PUT reports its ETag, so the pair (ETag, data) of
+    a multiget answer identifies two writes: they must be the same write."""
+    import threading
+    import time
+    from vf import fe as FE
+    res = common.Result()
+    rng = random.Random(args["seed"])
+    base = common.mkscratch("c17c")
+    agent = {"log": None, "delay_read_ms": args.get("delay_ms", 6), "delay_read_re": r"(/index$|/refs/heads/|/HEAD$|packed-refs$)", "delay_seed": args["seed"]}
+    w = W.World(base, fe_kind="aio", prefix="/", seed=args["seed"], agent=agent)
+    w.res = res
+    kind = args["kind"]
+    ext = ".ics" if kind == "calendar" else ".vcf"
+    try:
+        w.start()
+        col = "/user/calendars/cc/" if kind == "calendar" else "/user/contacts/cc/"
+        if args["backend"] == "bare":
+            w.stop()
+            w.provision_bare(col, kind, meta="gitconfig")
+            w.start()
+        else:
+            w.mkcol(col, kind)
+        names = ["m%d%s" % (i, ext) for i in range(3)]
+        etag_token = {}     # etag -> token, from PUT responses only
+        lock = threading.Lock()
+        stop = threading.Event()
+        counts = {"writes": 0, "multigets": 0, "pairs": 0, "gets": 0, "errors": 0}
+        seen_pairs = []
+
+        def mk(r, nm, tok):
+            return gen.ical(r, "uid-" + nm, tok, rich=False) if kind == "calendar" else gen.vcard(r, "uid-" + nm, tok, rich=False)
+
+        def put(r, nm, tok):
+            resp = FE.raw_http(w.fe.addr, "PUT", w.url(col, nm), [("Content-Type", W.CT[kind])], mk(r, nm, tok), timeout=30)
+            et = resp.header("ETag")
+            if resp.status in (201, 204) and et:
+                with lock:
+                    etag_token.setdefault(et, set()).add(tok)
+                counts["writes"] += 1
+
+        r0 = random.Random(args["seed"])
+        for nm in names:
+            put(r0, nm, "c17c%dx0z" % args["seed"])
+
+        def writer():
+            r = random.Random(args["seed"] + 1)
+            k = 0
+            while not stop.is_set():
+                k += 1
+                put(r, r.choice(names), "c17c%dx%dz" % (args["seed"], k))
+                time.sleep(r.random() * 0.01)
+
+        tokre = re.compile(r"c17c\d+x\d+z")
+
+        def reader():
+            r = random.Random(args["seed"] + 2)
+            while not stop.is_set():
+                if r.random() < 0.8:
+                    hrefs = [w.url(col, nm) for nm in r.sample(names, r.randint(1, 3))]
+                    resp = FE.raw_http(w.fe.addr, "REPORT", w.url(col), [("Depth", "1"), X.XML_CT], X.multiget(kind, hrefs, data=True), timeout=30)
+                    if resp.status != 207:
+                        counts["errors"] += 1
+                        continue
+                    counts["multigets"] += 1
+                    try:
+                        rs, _ = X.parse_multistatus(resp.body)
+                    except X.MalformedXML:
+                        counts["errors"] += 1
+                        continue
+                    for x in rs:
+                        data = x.prop_text(X.P_CALDATA if kind == "calendar" else X.P_ADDRDATA)
+                        et = x.prop_text(X.P_ETAG)
+                        if data is not None and et is not None:
+                            m = tokre.search(re.sub(r"\r?\n[ \t]", "", data))
+                            seen_pairs.append(("multiget", x.href, et, m.group(0) if m else "no-token:" + repr(data[:300])))
+                else:
+                    nm = r.choice(names)
+                    resp = FE.raw_http(w.fe.addr, "GET", w.url(col, nm), [], None, timeout=30)
+                    if resp.status == 200 and resp.header("ETag"):
+                        m = tokre.search(re.sub(r"\r?\n[ \t]", "", resp.body.decode("utf-8", "replace")))
+                        seen_pairs.append(("get", nm, resp.header("ETag"), m.group(0) if m else None))
+                        counts["gets"] += 1
+
+        ts = [threading.Thread(target=writer), threading.Thread(target=reader), threading.Thread(target=reader)]
+        for t in ts:
+            t.start()
+        time.sleep(args["seconds"])
+        stop.set()
+        for t in ts:
+            t.join()
+        overlapping = 0
+        for (via, href, et, tok) in seen_pairs:
+            res.evaluations += 1
+            toks = etag_token.get(et)
+            if toks is None:
+                res.count("concurrent_pairs_with_etag_of_unacknowledged_write")
+                continue
+            res.count("concurrent_pairs_judged")
+            res.count("concurrent_pairs_judged:" + via)
+            if tok not in toks:
+                sig = f"aio/{args['backend']}/{kind}/concurrent-overwrite/etag-of-one-write-with-data-of-another" if via == "multiget" else f"aio/{args['backend']}/{kind}/concurrent-overwrite/get-serves-etag-of-one-write-with-body-of-another"
+                if via == "get":
+                    # GET is not this property's subject: reported as an observation
+                    res.count("observation:get-etag-body-mismatch")
+                    continue
+                res.violation(sig, f"multiget answered {href!r} with ETag {et} (issued for body {sorted(toks)!r}) together with the data of write {tok!r}", {"config": dict(args)})
+        res.count("concurrent_runs")
+        res.count("concurrent_writes", counts["writes"])
+        res.count("concurrent_multigets", counts["multigets"])
+        res.count("concurrent_errors", counts["errors"])
+        res.seen("concurrent", args["backend"], kind, len(set(e for _, _, e, _ in seen_pairs)) // 10)
+        res.sample({"config": dict(args), "counts": counts, "distinct_etags_observed": len(set(e for _, _, e, _ in seen_pairs))}, cap=2)
+    except Exception:
+        res.inconclusive.append("harness exception: " + traceback.format_exc()[-1500:])
+    finally:
+        w.stop()
+        common.rmtree(base)
+    return res
+
+
 def run_shard(args):
+    if args.get("mode") == "concurrent":
+        return run_concurrent(args)
     res = common.Result()
     rng = random.Random(args["seed"])
     base = common.mkscratch("c17")
@@ -362,12 +487,16 @@ def check(tier, seed, t0):
     for rep in range(4 if not th else 8):
         for fe, pre in combos:
             shards.append({"fe": fe, "prefix": pre, "seed": seed * 1000 + len(shards), "rounds": 8 if not th else 60})
+    for i in range(4 if not th else 12):
+        shards.append({"mode": "concurrent", "backend": ["tree", "bare"][i % 2], "kind": ["calendar", "addressbook"][(i // 2) % 2], "seed": seed * 1000 + 900 + i,
+                       "seconds": 6 if not th else 30, "delay_ms": [4, 8][(i // 2) % 2]})
     results, failures = common.run_shards("vf.props.c17", shards, timeout_s=300 if not th else 2400)
     merged = common.merge(results)
     c = merged["counters"]
     k = 1 if not th else 15
     guards = [("href lists", c.get("lists", 0), 1200 * k), ("href classes judged", c.get("hrefs_judged", 0), 6000 * k), ("found answers compared with GET", c.get("found_compared_with_get", 0), 800 * k),
-              ("singleton replays", c.get("singleton_replays", 0), 6000 * k), ("answers found", c.get("outcome:found", 0), 800 * k), ("answers not found", c.get("outcome:notfound", 0), 500 * k)]
+              ("singleton replays", c.get("singleton_replays", 0), 6000 * k), ("answers found", c.get("outcome:found", 0), 800 * k), ("answers not found", c.get("outcome:notfound", 0), 500 * k),
+              ("(ETag, data) pairs of multigets concurrent with overwrites", c.get("concurrent_pairs_judged:multiget", 0), 300 * (1 if not th else 6)), ("overwrites during concurrent runs", c.get("concurrent_writes", 0), 100)]
     for cl in ("emitted", "encoded", "lower-escapes", "absolute-url", "deleted", "never-existed", "other-collection", "other-kind", "collection-itself", "outside-prefix", "sibling-prefix", "empty", "bad-escape", "dot-segments", "bogus-parent-same-basename", "doubled-slash"):
         guards.append(("class " + cl, c.get("class:" + cl, 0), 20))
     return common.finish(PROP, tier, seed, "exploration", merged, failures, RULE, t0, guards=guards,
